@@ -108,16 +108,21 @@ def splitLast : List Nat → Option (List Nat × List Nat)
     | some (b, a) => some (c :: b, a)
     | none => if c = hyphen then some ([], cs) else none
 
-/-- `decode(encoded)` up to the final `string(output)` conversion. -/
+def isAscii (s : List Nat) : Bool := s.all (· < 128)
+
+/-- `decode(encoded)` up to the final `string(output)` conversion. In the order of the code:
+`encoded == ""`; `pos == 1` (nothing before the last `-`); the literal part must be basic
+(`!ascii(encoded[:pos])`); `pos == len(encoded)` shortcut; the delta loop. -/
 def decodeRunes (enc : List Nat) : Option (List Nat) :=
-  match enc with
-  | [] => some []
-  | _ =>
+  if enc = [] then some []
+  else
     match splitLast enc with
     | none => decodeLoop enc.length enc [] 0 initialN initialBias        -- pos = 0
-    | some ([], _) => none                                                  -- pos = 1
-    | some (b, []) => some b                                                -- pos = len(encoded)
-    | some (b, a) => decodeLoop a.length a b 0 initialN initialBias
+    | some (b, a) =>
+      if b = [] then none                                                   -- pos = 1
+      else if !isAscii b then none                                          -- literal part not basic
+      else if a = [] then some b                                            -- pos = len(encoded)
+      else decodeLoop a.length a b 0 initialN initialBias
 
 /-- Go's `string([]rune)`: surrogates (and out-of-range values) become U+FFFD. -/
 def goRune (r : Nat) : Nat := if (55296 ≤ r ∧ r ≤ 57343) ∨ r > maxRune then 65533 else r
@@ -200,8 +205,6 @@ def encodeU (u16 : Bool) (pfx s : List Nat) : List Nat × Bool :=
 /-! ### `Profile.process` for the Punycode profile (no mapping, no validation options) -/
 
 def acePrefix : List Nat := [120, 110, 45, 45]  -- "xn--"
-
-def isAscii (s : List Nat) : Bool := s.all (· < 128)
 
 def splitDots : List Nat → List (List Nat)
   | [] => [[]]
